@@ -1,6 +1,7 @@
 package hedgepolicy
 
 import (
+	"sync"
 	"sync/atomic"
 	"time"
 
@@ -30,6 +31,7 @@ func (e *executor[R]) Apply(innerFn func(failsafe.Execution[R]) *common.PolicyRe
 		resultCount := atomic.Int32{}
 		resultSent := atomic.Bool{}
 		resultChan := make(chan *execResult, 1) // Only one result is sent
+		var attempts sync.WaitGroup
 
 		for execIdx := 0; ; execIdx++ {
 			// Prepare execution
@@ -43,7 +45,9 @@ func (e *executor[R]) Apply(innerFn func(failsafe.Execution[R]) *common.PolicyRe
 			}
 
 			// Perform execution
+			attempts.Add(1)
 			go func(hedgeExec policy.ExecutionInternal[R], execIdx int) {
+				defer attempts.Done()
 				result := innerFn(hedgeExec)
 				isFinalResult := int(resultCount.Add(1)) == e.maxHedges+1
 				isCancellable := e.IsAbortable(result.Result, result.Error)
@@ -60,6 +64,10 @@ func (e *executor[R]) Apply(innerFn func(failsafe.Execution[R]) *common.PolicyRe
 				case <-timer.C:
 				case result = <-resultChan:
 					timer.Stop()
+				case <-exec.Canceled():
+					// Do not wait out the hedge delay or start further hedges when canceled, just let the started attempts finish
+					timer.Stop()
+					attempts.Wait()
 				}
 			} else {
 				select {
